@@ -560,7 +560,7 @@ func TestVerif_C17_mpwrite(t *testing.T) {
 		"multipart requests: fields from ordered form data (0..4 pairs) or a one-key map (so that map order cannot matter), client-level fields in 1/8, both ordered and map in 1/10; 0..4 files by bytes / scripted reader (first read 1..512 bytes) / path on disk / FileUpload (content type given, blank or sniffed; extra parameters), sizes around 512 B and 32 KiB, text/binary/boundary look-alike content; custom boundaries incl. ones needing quoting; forced chunked in 1/3; non-trivial = at least one file and one field")
 	r := s.Rand()
 	dir := t.TempDir()
-	n := verifh.N(350, 12000)
+	n := verifh.N(800, 12000)
 	boundaries := []string{"B", "xYz123", "----WebKitFormBoundary7MA4YWxkTrZu0gW", "a b", "with:colon=and?q", "(paren)'+_,-./", "0123456789012345678901234567890123456789012345678901234567890123456789"}
 	for i := 0; i < n; i++ {
 		b := verifh.Pick(r, boundaries)
